@@ -96,6 +96,9 @@ impl Ty {
 
 #[derive(Clone, Debug, PartialEq, Eq, Hash, Serialize, Deserialize)]
 pub struct Field {
+    /// printing style: rotates the attribute list / splits it into separate brackets
+    #[serde(default)]
+    pub sty: u8,
     pub vis: bool,
     /// "_" for an unnamed field
     pub name: String,
@@ -107,6 +110,7 @@ pub struct Field {
 impl Field {
     pub fn new(name: &str, ty: Ty) -> Field {
         Field {
+            sty: 0,
             vis: true,
             name: name.to_string(),
             ty,
@@ -126,6 +130,8 @@ pub enum Arg {
 
 #[derive(Clone, Debug, PartialEq, Eq, Hash, Serialize, Deserialize)]
 pub struct Func {
+    #[serde(default)]
+    pub sty: u8,
     pub vis: bool,
     pub name: String,
     pub doc: Vec<String>,
@@ -151,6 +157,8 @@ pub struct Vft {
 
 #[derive(Clone, Debug, PartialEq, Eq, Hash, Serialize, Deserialize, Default)]
 pub struct TypeDef {
+    #[serde(default)]
+    pub sty: u8,
     pub vis: bool,
     pub name: String,
     pub doc: Vec<String>,
@@ -281,6 +289,22 @@ pub struct Prog {
 
 // ---------------------------------------------------------------- printer
 
+/// Print an attribute list: rotated by `sty & 0x3f`, in one bracket or (bit 7) one bracket each.
+fn attr_lines(out: &mut String, ind: &str, mut attrs: Vec<String>, sty: u8) {
+    if attrs.is_empty() {
+        return;
+    }
+    let n = attrs.len();
+    attrs.rotate_left((sty & 0x3f) as usize % n);
+    if sty & 0x80 != 0 {
+        for a in attrs {
+            let _ = writeln!(out, "{ind}#[{a}]");
+        }
+    } else {
+        let _ = writeln!(out, "{ind}#[{}]", attrs.join(", "));
+    }
+}
+
 fn docs(out: &mut String, ind: &str, doc: &[String]) {
     for l in doc {
         let _ = writeln!(out, "{ind}///{l}");
@@ -299,9 +323,7 @@ pub fn print_func(out: &mut String, ind: &str, f: &Func) {
     if let Some(c) = &f.cc {
         attrs.push(format!("calling_convention({:?})", c));
     }
-    if !attrs.is_empty() {
-        let _ = writeln!(out, "{ind}#[{}]", attrs.join(", "));
-    }
+    attr_lines(out, ind, attrs, f.sty);
     let args: Vec<String> = f
         .args
         .iter()
@@ -348,9 +370,7 @@ pub fn print_type(out: &mut String, t: &TypeDef) {
     if t.defaultable {
         attrs.push("defaultable".into());
     }
-    if !attrs.is_empty() {
-        let _ = writeln!(out, "#[{}]", attrs.join(", "));
-    }
+    attr_lines(out, "", attrs, t.sty);
     let _ = writeln!(out, "{}type {} {{", if t.vis { "pub " } else { "" }, t.name);
     if let Some(v) = &t.vft {
         if let Some(s) = &v.size {
@@ -371,9 +391,7 @@ pub fn print_type(out: &mut String, t: &TypeDef) {
         if let Some(a) = &f.addr {
             attrs.push(format!("address({})", a.print()));
         }
-        if !attrs.is_empty() {
-            let _ = writeln!(out, "    #[{}]", attrs.join(", "));
-        }
+        attr_lines(out, "    ", attrs, f.sty);
         let _ = writeln!(
             out,
             "    {}{}: {},",
